@@ -1028,7 +1028,8 @@ def check(run, fx, tier, floors=True):
     t18_bias(run, fx, floors)
     t18_lim(run, fx, floors)
     t18_vis(run, fx, floors)
-    if floors or any("CharStringParser::<'_, B>::parse_" in b.path for b in fx.bodies):
+    # the outline builder only exists with the `outline` feature: fail closed on the configurations that have it, skip where it is compiled out
+    if (floors and run.config in (None, "prince", "default")) or any("CharStringParser::<'_, B>::parse_" in b.path for b in fx.bodies):
         t18_path(run, fx, floors)
     recursion.run_rule(run, fx, "C01-a", lambda f: any("cff::charstring" in p or "cff::cff2" in p or "cff::outline" in p for p in f.local_paths),
                        floors_n=1 if floors else None)
